@@ -8,10 +8,12 @@ SIZES = {"a": 2, "b": 3, "c": 4}
 
 
 def arr_leaf(rng, good=.8):
-    kind = rng.choice(["a", "a b", "*v a", "b"])
+    kind = rng.choice(["a", "a b", "*v a", "b", "*#w a"])
     shape = []
     for tok in kind.split():
-        if tok == "*v":
+        if tok == "*#w":
+            shape += rng.choice([[5, 6], [1, 6], [5, 1], [1, 1], [6], [1]]) if rng.random() < good else [4, 6]
+        elif tok == "*v":
             shape += [5, 6] if rng.random() < good else [5]
         else:
             shape.append(SIZES[tok] if rng.random() < good else 7)
@@ -22,7 +24,8 @@ LEAFTYPES = ["int", "str", "any", ["tuple", ["int", "int"]], ["union", ["int", "
              ["arr", "Float", "a"], ["arr", "Float", "a b"], ["arr", "Float", "*v a"], ["arr", "Int", "a"],
              ["union", [["arr", "Float", "a b"], ["arr", "Float", "b"]]], ["union", ["int", ["arr", "Float", "a"]]],
              ["tuple", [["arr", "Float", "a"], ["arr", "Float", "a b"]]], ["tuple", ["int", "str"]],
-             ["arr", "Float", "a", "any"], ["arr", "Shaped", "a b", "any"], "tpair", "tpair"]
+             ["arr", "Float", "a", "any"], ["arr", "Shaped", "a b", "any"], "tpair", "tpair",
+             ["arr", "Float", "*#w a"], ["arr", "Float", "*#w a"], ["union", [["arr", "Float", "*#w a"], "int"]]]
 
 
 def leaf_value(rng, lt):
@@ -51,7 +54,10 @@ def leaf_value(rng, lt):
     if lt[0] == "arr":
         shape = []
         for tok in lt[2].split():
-            if tok == "*v":
+            if tok == "*#w":
+                # broadcastable variadic: a later leaf may WIDEN the binding an earlier one made (1 -> 5); sometimes incompatible
+                shape += rng.choice([[5, 6], [1, 6], [5, 1], [1, 1], [6], [1], [5, 6]]) if rng.random() < .85 else [4, 6]
+            elif tok == "*v":
                 shape += [5, 6] if rng.random() < .85 else [5]
             else:
                 shape.append(SIZES[tok] if rng.random() < .85 else 7)
@@ -95,6 +101,9 @@ def tree_step(leaf, value, structure=None):
 
 
 CORPUS = [
+    # a broadcastable variadic axis bound before the tree; one leaf widens it, a later leaf fails: the rejected tree must leave (1,4)
+    S({"kind": "arr", "dim": "*#w", "shape": [1, 4]}, tree_step(["arr", "Float", "*#w"], ["t", [["a", [3, 4], "float32"], ["a", [2, 4], "float32"]]]), {"kind": "arr", "dim": "*#w", "shape": [2, 4]}),
+    S({"kind": "arr", "dim": "*#w a", "shape": [1, 6, 2]}, tree_step(["pytree", ["arr", "Float", "*#w a"], None], ["l", [["a", [5, 6, 2], "float32"], ["i", 3]]]), {"kind": "arr", "dim": "*#w a", "shape": [4, 6, 2]}),
     S(tree_step("int", ["t", [["n"], ["i", 1], ["t", []], ["d", {}]]])),
     S(tree_step(["tuple", ["int", "int"]], ["t", [["i", 1], ["i", 2]]])),
     S(tree_step(["tuple", ["int", "int"]], ["l", [["t", [["i", 1], ["i", 2]]], ["N", "P", [["i", 1], ["i", 2]]], ["t", [["i", 1]]]]])),
